@@ -212,8 +212,9 @@ def gen_round(rng: random.Random, kind: str) -> dict:
         if rng.random() < 0.4:
             p["Rmid"] = rq(rng, 0.3, 2)
     elif kind == "Elbow":
-        r = rq(rng, 0.3, 1.2)
-        p.update(R=r, R2=rq(rng, 0.3, 1.2), D=str(Fraction(r) + Fraction(rq(rng, 0.6, 3))), sweep=rq(rng, 0.25, 1.6))
+        r, r2 = rq(rng, 0.3, 1.2), rq(rng, 0.3, 1.2)
+        # the bend radius D exceeds both tube radii by a margin (otherwise the inside of the bend folds over)
+        p.update(R=r, R2=r2, D=str(max(Fraction(r), Fraction(r2)) + Fraction(rq(rng, 0.6, 3))), sweep=rq(rng, 0.25, 1.5))
         p["neg"] = int(rng.random() < 0.5)  # the same rotation given as (-angle, -axis)
     elif kind == "ExtrudedRing":
         r = rq(rng, 0.5, 2)
@@ -246,7 +247,7 @@ def gen_chain(rng: random.Random) -> dict:
             if sk == "ExtrudedRing":
                 op = "ExtrudedRing.chain"
             else:
-                op = rng.choice(["Cylinder.chain", "Frustum.chain", "Hemisphere.chain"] + (["Elbow.chain"] if sl == "end" else []))
+                op = rng.choice(["Cylinder.chain", "Frustum.chain", "Hemisphere.chain", "Elbow.chain"])
         elif sl == "outer":
             op = "ExtrudedRing.expand"
         else:
@@ -581,11 +582,15 @@ def build_chain(case: dict, fr: Frame, kws) -> Built:
             s = cb.Frustum.chain(src, fr.L(link["L"]), fr.L(link["R2"]), start, fr.L(link["Rmid"]) if "Rmid" in link else None)
             b.calls.append(lambda s=s: s.chop_axial(**dict(kws[0])))
         elif op == "Elbow.chain":
-            sk = src.sketch_2
+            # the arc centre lies in the plane of the interface, the sweep leaves the source
+            sk = src.sketch_1 if start else src.sketch_2
             c, n = np.asarray(sk.center), np.asarray(sk.normal)
+            if start:
+                n = -n
             u = np.asarray(sk.radius_point) - c
             u = u / np.linalg.norm(u)
-            s = cb.Elbow.chain(src, fl(link["sweep"]), c + u * fr.L(link["d"]) + u * sk.radius, np.cross(n, u), fr.L(link["R2"]), False)
+            bend = fr.L(link["d"]) + max(sk.radius, fr.L(link["R2"]))  # bend radius: a margin above both tube radii
+            s = cb.Elbow.chain(src, fl(link["sweep"]), c + u * bend, np.cross(n, u), fr.L(link["R2"]), start)
             b.calls.append(lambda s=s: s.chop_axial(**dict(kws[0])))
         elif op == "Hemisphere.chain":
             s = cb.Hemisphere.chain(src, start)
@@ -671,6 +676,9 @@ class C11(core.Check):
         "the axis-level propagation model (axis defined iff chopped or sharing a wire with a defined axis) is tied to "
         "BlockList.propagate_gradings by comparing the predicted outcome and undefined-block list of every write",
         "a time-out of Mesh.write (40 s) is reported as exit 2, not as a violation of C11 (termination is C02)",
+        "chop arguments that the grading arithmetic itself rejects on some edge (ArithmeticError/ValueError raised in "
+        "classy_blocks/grading: cell larger than the edge, one cell with two prescribed sizes) are counted as "
+        "`chop-arithmetic` in the input distribution, not as violations (C03/C20); the generator keeps them rare",
     ]
     partial_note = (
         "Topology (choppability, single chop per wire family, conformity, orientation of the quad maps, ring/stack/"
@@ -762,6 +770,13 @@ class C11(core.Check):
         except Exception as e:
             out["write"] = type(e).__name__
             out["msg"] = str(e)[:2000]
+            import traceback as _tb
+
+            frames = [f.filename for f in _tb.extract_tb(e.__traceback__)]
+            if frames and "/grading/" in frames[-1] and isinstance(e, (ArithmeticError, ValueError)):
+                # the chop arguments cannot be met on some edge (cell larger than the edge, count 1 with two
+                # sizes, ...): raised by grading/relations.py or grading/chop.py, the business of C03/C20
+                out["write"] = "chop-arithmetic"
             if type(e).__name__ == "UndefinedGradingsError":
                 und = []
                 for line in str(e).splitlines()[1:]:
@@ -835,7 +850,7 @@ class C11(core.Check):
             want = "undefined [" + ",".join(map(str, impl["undefined"])) + "]"
             if ans != want:
                 return f"write raised UndefinedGradingsError for blocks {impl['undefined']}, model predicts `{ans}`"
-        elif impl["write"] != "timeout" and ans != "ok":
+        elif impl["write"] not in ("timeout", "chop-arithmetic") and ans != "ok":
             return f"write raised {impl['write']}, model predicts `{ans}`"
         fam = next(it)
         want = "[" + ",".join(map(str, _mesh_families(impl["blocks"]))) + "]"
@@ -885,6 +900,9 @@ class C11(core.Check):
             tag += ":" + "+".join(l["op"] for l in case["p"]["links"])
         if "blocks" not in impl:
             return tag + ":not-built"
+        if impl["write"] == "timeout":
+            # a hang of the propagation loop is C02's business: machinery time-out (exit 2), never a VIOLATION of C11
+            raise TimeoutError(f"Mesh.write did not return within {WRITE_TIMEOUT} s for {json.dumps(case)}")
         return tag + ("" if impl["write"] == "ok" else ":" + impl["write"])
 
 
@@ -1087,6 +1105,44 @@ def oracle(case: dict, impl: dict) -> List[dict]:
                 todo.append(y)
     if len(seen) != len(blocks):
         viol(f"{cls}:not-face-connected", f"only {len(seen)} of {len(blocks)} blocks are reachable through shared faces", len(seen), len(blocks))
+    # blocks do not overlap: no block centre lies inside another block (straight-edged hexahedron, each face
+    # taken as the plane through its centre spanned by its diagonals; margin 1e-3 of the block size)
+    cen = np.array([fpts[b].mean(axis=0) for b in blocks])
+    inside_of = None
+    # chains: a shape is compared with itself and with its source only (two shapes attached to different sides of a
+    # third one may well run into each other; that is the generator's doing, not the library's)
+    part_of = np.zeros(len(blocks), dtype=int)
+    related = None
+    if case["kind"] == "Chain":
+        for i, (a, b_) in enumerate(impl["parts"]):
+            part_of[a:b_] = i
+        srcs = [0] + [l["src"] for l in case["p"]["links"]]
+        related = np.array([[i == j or srcs[i] == j or srcs[j] == i for j in range(len(srcs))] for i in range(len(srcs))])
+    for bi, b in enumerate(blocks):
+        p = fpts[b]
+        ok_mask = np.ones(len(blocks), dtype=bool)
+        ok_mask[bi] = False
+        if related is not None:
+            ok_mask &= related[part_of[bi]][part_of]
+        ext = float(np.max(np.linalg.norm(p - cen[bi], axis=1)))
+        for f in BM_FACES:
+            q = p[list(f)]
+            fc = q.mean(axis=0)
+            nrm = np.cross(q[2] - q[0], q[3] - q[1])
+            ln = np.linalg.norm(nrm)
+            if ln == 0:
+                ok_mask[:] = False
+                break
+            nrm = nrm / ln
+            if np.dot(nrm, cen[bi] - fc) > 0:
+                nrm = -nrm  # outward
+            ok_mask &= (cen - fc) @ nrm < -1e-3 * ext
+        hit = np.nonzero(ok_mask)[0]
+        if len(hit):
+            inside_of = (int(hit[0]), bi)
+            break
+    if inside_of:
+        viol(f"{block_cls(inside_of[0])}:overlapping-blocks", f"the centre of block {inside_of[0]} lies inside block {inside_of[1]}", list(inside_of))
     # distinct vertices must be well separated (a near miss is a vertex that should have been shared)
     if len(fpts) > 1:
         d = np.linalg.norm(fpts[:, None, :] - fpts[None, :, :], axis=2) + np.eye(len(fpts)) * 1e9
@@ -1104,7 +1160,8 @@ def oracle(case: dict, impl: dict) -> List[dict]:
         h = rel @ c["n"]
         rad = np.linalg.norm(rel - np.outer(h, c["n"]), axis=1)
         rim = {i for i in range(len(fpts)) if abs(h[i]) < tol and abs(rad[i] - c["r"]) < tol}
-        if len(rim) != c["nv"]:
+        # (other vertices may happen to lie on the same circle, e.g. the two half circles of an oval with d = 2R)
+        if len(rim) < c["nv"]:
             viol(f"{cls}:off-circle", f"circle {ci} (radius {c['r']:.6g}) holds {len(rim)} vertices instead of {c['nv']}", len(rim), c["nv"])
             continue
         na = 0
@@ -1116,7 +1173,7 @@ def oracle(case: dict, impl: dict) -> List[dict]:
                     na += 1
                 else:
                     viol(f"{cls}:arc-off-circle", f"arc {v1}-{v2} of circle {ci} passes through a point off the circle", [hq, float(np.linalg.norm(q))], c["r"])
-        if na != c["na"] and not any(v["site"].endswith("arc-off-circle") for v in out):
+        if na < c["na"] and not any(v["site"].endswith("arc-off-circle") for v in out):
             viol(f"{cls}:missing-arc", f"circle {ci} carries {na} arcs instead of {c['na']}", na, c["na"])
 
     # an arc given by its origin lies on a circle about that origin only if both ends are equally far from it
@@ -1142,7 +1199,7 @@ def oracle(case: dict, impl: dict) -> List[dict]:
 
     # 4. the documented chop calls are sufficient for writing
     w = impl["write"]
-    if w not in ("ok", "timeout"):
+    if w not in ("ok", "timeout", "chop-arithmetic"):
         viol(f"{cls}:write-{w}", f"Mesh.write() after the documented chop calls raises {w}: {impl.get('msg', '')[:300]}", w, "ok")
     if w == "ok":
         cnt: Dict[frozenset, Tuple[int, int, int]] = {}
